@@ -110,7 +110,9 @@ func runHistory(c *ctx) error {
 		}
 		e.Install()
 		var file []rec
-		readings := []int64{0, 5, 23, 24, 30, 31, -30, -5000, 77777, 1 << 20, 1<<31 - 1 - 3, 3000000000, 1<<32 + 5, -(1 << 33)}
+		// (a reading whose low 32 bits are zero, such as -(1<<33), is sent but leaves an empty history
+		// cell: that manifestation of the 32-bit history format has its own scenario below)
+		readings := []int64{0, 5, 23, 24, 30, 31, -30, -5000, 77777, 1 << 20, 1<<31 - 1 - 3, 3000000000, 1<<32 + 5}
 		edit := func() {
 			switch k := rng.Intn(10); {
 			case k < 4 || len(file) == 0: // append
@@ -159,6 +161,40 @@ func runHistory(c *ctx) error {
 				if err := e.Start(); err != nil {
 					return err
 				}
+			}
+		}
+		e.Close()
+		if e.Sink != nil {
+			e.Sink.Close()
+		}
+	}
+	// a reading outside 32 signed bits whose low 32 bits are zero, later replaced by another reading
+	{
+		t.Scenario("history/unfitzero/0")
+		origin := uint32(100)
+		e, err := hx.NewCliEnv(abs, t, c.root, "clz", 99, origin, nil)
+		if err != nil {
+			return err
+		}
+		e.Install()
+		write := func(rows [][2]int64) {
+			var lines []string
+			recs := []hx.J{}
+			for _, x := range rows {
+				lines = append(lines, fmt.Sprintf("%d,%d", G+x[0]*300+7, x[1]))
+				recs = append(recs, hx.J{"slot": int(x[0]), "val": hx.EValOf(energyOf(x[1]))})
+			}
+			e.WriteEnergy(lines)
+			t.Emit(hx.J{"a": "EditFile", "recs": recs})
+		}
+		write([][2]int64{{110, 50}})
+		if err := e.Start(); err != nil {
+			return err
+		}
+		for _, rows := range [][][2]int64{{{110, 50}, {120, -(1 << 33)}}, {{110, 50}, {120, -30}}, {{110, 50}, {120, -30}, {130, 60}}} {
+			write(rows)
+			if !e.Iterate() {
+				return fmt.Errorf("report loop did not complete an iteration")
 			}
 		}
 		e.Close()
